@@ -241,7 +241,10 @@ func run(c Case) (pbt.Outcome, error) {
 					if h == nil {
 						continue
 					}
-					closedAtStart := h.closed.Load()
+					// inert only if Close had RETURNED on the object before the derivation started (the flag
+					// "closed" is raised by the harness right before it calls Close: between the two the
+					// scope is still live)
+					closedAtStart := h.closeReturned.Load() != 0
 					var d tally.Scope
 					if op.D%2 == 0 {
 						d = h.s.Tagged(nil)
@@ -263,7 +266,7 @@ func run(c Case) (pbt.Outcome, error) {
 					if h == nil {
 						continue
 					}
-					closedAtStart := h.closed.Load()
+					closedAtStart := h.closeReturned.Load() != 0 // see "same": Close has returned, not merely been announced
 					ch := h.s.SubScope("child")
 					closedAtEnd := h.closed.Load()
 					ch.Counter("c").Inc(op.D)
